@@ -3,7 +3,7 @@
    Only statements closed by [exact]; models and lemmas live in C17_Rng.v and C17_Hutch.v.
    The generator (stream, seed_st), the hash (sha) and the stopping test (cont) are universally quantified. *)
 From Coq Require Import List ZArith Arith Bool.
-From Core Require Import Base C17_Rng C17_Hutch.
+From Core Require Import Base C17_Rng C17_Hutch C17_Rademacher C17_Link.
 Import ListNotations.
 
 (* randn(key) = save; seed; draw; restore: returns a function of (key, size) only and leaves the state as found *)
@@ -114,3 +114,30 @@ Theorem C17_hutch_unbiased_partial : forall (R : Type) (RR : Ring R) (n bs : nat
   E (fun p => dsum (blocks n bs k A p m) i) = nmul (m * bs) (rmul c (target k A i)).
 Proof. exact @hutch_unbiased. Qed.
 Print Assumptions C17_hutch_unbiased_partial.
+
+(* the Rademacher instance, by finite enumeration: second moments of the sum over all 2^N sign patterns ... *)
+Theorem C17_rademacher_moment : forall (R : Type) (RR : Ring R) (N a b : nat), a < N -> b < N ->
+  sum_signs N (fun s => rmul (s a) (s b)) = rmul (pow2 N) (delta a b).
+Proof. exact @rademacher_moment. Qed.
+Print Assumptions C17_rademacher_moment.
+
+(* ... hence summed over ALL sign patterns of the m*bs*n probe entries the accumulated sums are exactly
+   2^N * (number of probes) * A[i+off, i+off+k]: with Rademacher probes and a fixed number of blocks the estimator is
+   exactly unbiased, for every operator, every offset k, every size (no division needed, no axiom) *)
+Theorem C17_rademacher_unbiased : forall (R : Type) (RR : Ring R) (n bs : nat) (k : Z) (A : nat -> nat -> R) (m i : nat),
+  i < n - Z.abs_nat k ->
+  E_rad n bs m (fun p => dsum (blocks n bs k A p m) i) = nmul (m * bs) (rmul (pow2 (NN n bs m)) (target k A i)).
+Proof. exact @rademacher_unbiased. Qed.
+Print Assumptions C17_rademacher_unbiased.
+
+(* the two models are one: a call hutchinson_diag_estimate(A, k, key=...) on generator state g returns the estimator
+   loop of C17_Hutch.v run on the blocks of the key chain, and leaves g as it was - for every generator, hash,
+   operator, offset, stopping test, and probe post-processing (identity / sign) *)
+Theorem C17_hutch_call_is_model : forall (St T : Type) (seed_st : Z -> St) (stream : St -> nat -> list T * St) (sha : Z -> Z)
+  (zero : T) (add mul : T -> T -> T) (n bs : nat) (k : Z) (A : mat T) (cont : state T -> bool) (max_iters : nat) (sgn : T -> T)
+  (Out : Type) (fin : state T -> Out) (key : option Z) (g : St),
+  run St T seed_st stream sha
+      (hutch_site T Out sha (cnd T cont max_iters) (stp T zero add mul n bs k A sgn) (n * bs) max_iters key (st0 T zero) fin) g
+  = (fin (hutch T zero add mul n bs k A cont max_iters (key_probe St T seed_st stream sha zero n bs sgn (dflt42 sha key))), g).
+Proof. exact hutch_call_is_model. Qed.
+Print Assumptions C17_hutch_call_is_model.
